@@ -14,7 +14,7 @@ def register(check, na):
           "Path-set shape of Arc::make_mut, Arc::make_unique, OffsetArc::make_mut: sole-owner path has no clone/alloc/count event; shared path is test -> one Clone::clone -> one fresh block -> release of one old owner -> mutable borrow from the new pointer; clone confined to the not-unique branch; OffsetArc read-out/park/write-back order and no change when Clone unwinds. Decides where the write can land (solely owned or fresh); the run-time invisibility through other handles follows with C02/C03.",
           TB, "MIR path-set shape and event-order rules on the copy-on-write functions", "DESIGN.md 4/C08")
     check("C09", "other",
-          "Path-set shape of try_unique, TryFrom, try_unwrap, into_inner, unwrap_or_clone: sole-owner path moves the payload field out with no destructor call and frees the block once as typed sole owner; decline path has zero events and returns the parameter itself (unwrap_or_clone: one clone then one release); every way these functions come to hold a UniqueArc sits behind the Acquire `count == 1` gate (a Relaxed observation does not count). The race clause reduces to C02/C03.",
+          "Path-set shape of try_unique, TryFrom, try_unwrap, into_inner, unwrap_or_clone: sole-owner path moves the payload field out with no destructor call and frees the block once as typed sole owner; decline path has zero events and returns the parameter itself (unwrap_or_clone: one clone then one release); every way these functions come to hold a UniqueArc sits behind the Acquire `count == 1` gate (a Relaxed observation does not count). The race clause reduces to C02/C03. Premises: the count equals the number of owners on every path (R-BAL/R-UNW), including owners held by an ArcUnion (c12.union_dispatch) and owners lent by arc-swap (R-REFCNT-PAIR: RefCnt::as_ptr and into_ptr yield the same word).",
           TB, "MIR path-set shape, move/def-use rules on the unwrap family", "DESIGN.md 4/C09")
 
 
@@ -32,7 +32,7 @@ def _more(check, na):
 
 def _more2(check, na):
     check("C14", "other",
-          "Where the answer comes from, decided on the type-resolved call graph: every comparison/hash/format method on a handle or public header-slice type reaches the same trait method on the payload, never on the pointer, never on a part of the value, never another method, and on every returning path (no early return that skips the delegate); the single pointer-identity shortcut has the licensed shape; Borrow/AsRef return the Deref target; eq, ordering and hash of each payload struct read the same leaf fields at the same instantiation. Two genuine defects found by these rules were repaired in /repo (fix: commits, see known_findings.json). Concrete results on values are not decided. Key comparisons are oriented (self, other) (R-ORIENT).",
+          "Where the answer comes from, decided on the type-resolved call graph: every comparison/hash/format method on a handle or public header-slice type reaches the same trait method on the payload, never on the pointer, never on a part of the value, never another method, and on every returning path (no early return that skips the delegate); the single pointer-identity shortcut has the licensed shape; Borrow/AsRef return the Deref target; eq, ordering and hash of each payload struct read the same leaf fields at the same instantiation. Two genuine defects found by these rules were repaired in /repo (fix: commits, see known_findings.json). Concrete results on values are not decided. Key comparisons are oriented (self, other) (R-ORIENT). Premise for ArcUnion: its eq/Debug act on what borrow() lends, so the variant test and the tag strip are exact (R-TAG of C12, evaluated over sample words and payload alignments).",
           TB + " Parametricity of one-call delegation.", "call-graph delegation analysis + comparison-footprint agreement", "DESIGN.md 4/C14, 6")
 
 
